@@ -21,7 +21,12 @@ func init() {
 			"(2) the raft transaction records every key it read (or first overwrote) and every listing it made before using them, and Commit ships all recorded reads, lists and writes between a beginTxOp carrying the start index and a commitTxOp, no iteration over the recorded sets going on to the next element without appending its entry to the log handed to applyLog (an update only when its op type is neither put nor delete); the start index is read before the bolt snapshot is opened; " +
 			"(3) the state machine verifies every read/list of a transaction before its first write (shared with C09.5); (4) the in-memory backend compares before each write of a commit and restores its tree on any failure, under the parent lock; " +
 			"(5) the cache layer drops every key a transaction modified from the shared cache only after the inner commit succeeded and never on rollback; the transaction's reference to the shared cache (field parent) is set by the two constructors and read by Commit alone, and Commit never inserts into a cache; " +
-			"(6) the fast-path predicates (shared with C09.4); (7) every bound that lets the fast-path record forget writes originates from the state machine's index or a transaction start index.",
+			"(6) the fast-path predicates (shared with C09.4); (7) every bound that lets the fast-path record forget writes originates from the state machine's index or a transaction start index; " +
+			"gaps round 2: (8) every BeginReadOnlyTx of the Transactional family opens a read-only transaction (wrappers ask the wrapped backend for one and never call BeginTx, leaves build the transaction with the refusing value of its write flag); " +
+			"(9) an accepted Put/Delete of a leaf sets the 'written' flag its Commit consults; (10) an in-memory transaction works on a private copy of the parent tree taken under the parent's lock and the tree pointer has three tabled writers; " +
+			"(4+) the in-memory transaction's own List records its observation; (2+) a kept list verification entry of the raft transaction is replaced (and the old one dropped) only when the new replay window is wider; " +
+			"(7+) node-local trim bounds and the bound applyLog ships are min(lowest active start, state machine index), a writable raft transaction is registered with the tracker before it is handed out, registration increments / completion decrements the per-index count and the index is forgotten only with its last transaction, trimming removes exactly the entries below the bound; " +
+			"(5+) the LRU and lock table of a cache are set by its constructor alone.",
 		NotDecided: "serializability over interleavings (schedules); soundness of the raft fast path as index arithmetic beyond the stated predicates; what PostgreSQL implements under the isolation level requested (delegated to the database; only the level requested is checked); the gRPC storage client/server pair (out-of-process).",
 		Run:        runC08,
 	})
@@ -775,6 +780,7 @@ func runC08(c *eng.Ctx, thorough bool) {
 			c.OK(f, "modified key recorded", rec[0].Pos(), "every successful write records its key")
 		}
 	}
+	runC08Gaps2(c)
 }
 
 // checkBound: a bound that lets the tracker forget writes must come from the
